@@ -25,6 +25,7 @@ package c13
 
 import (
 	"bufio"
+	"bytes"
 	"crypto/ecdsa"
 	"encoding/hex"
 	"encoding/json"
@@ -348,6 +349,9 @@ type syncReport struct {
 	AppHash     string      `json:"app_hash"`
 	Reached     bool        `json:"reached"`
 	ElapsedMs   int64       `json:"elapsed_ms"`
+	// Switched: the pool routine announced the switch to consensus (its log line) before the report
+	Switched   bool  `json:"switched"`
+	SwitchWait int64 `json:"switch_wait_ms"` // how long after REACHED the child kept looking for it
 }
 
 // runSync is the syncing child's main: a fresh node directory with its own key and the
@@ -404,9 +408,17 @@ func runSync(dir string) {
 			say("BLOCK %d %s %s %d", b.Height, b.Hash, b.PartsHash, b.Parts)
 		}
 	}
+	var reachedAt time.Time
+	switched := func() bool {
+		lb, _ := os.ReadFile(filepath.Join(dir, "log"))
+		return bytes.Contains(lb, []byte("Time to switch to consensus"))
+	}
 	report := func(reached bool) {
 		printBlocks()
-		rep := syncReport{StoreHeight: node.Angine.Height(), Blocks: blocks, Reached: reached, ElapsedMs: time.Since(start).Milliseconds()}
+		rep := syncReport{StoreHeight: node.Angine.Height(), Blocks: blocks, Reached: reached, ElapsedMs: time.Since(start).Milliseconds(), Switched: switched()}
+		if !reachedAt.IsZero() {
+			rep.SwitchWait = time.Since(reachedAt).Milliseconds()
+		}
 		vh, vs := node.Angine.GetValidators()
 		rep.ValHeight, rep.ValHash, rep.ValSize = vh, hex.EncodeToString(vs.Hash()), vs.Size()
 		info := app.Info()
@@ -414,7 +426,6 @@ func runSync(dir string) {
 		bz, _ := json.Marshal(rep)
 		say("REPORT %s", bz)
 	}
-	var reachedAt time.Time
 	for {
 		printBlocks()
 		if reachedAt.IsZero() && printed >= target {
@@ -422,8 +433,13 @@ func runSync(dir string) {
 			say("REACHED %d after %d ms", printed, time.Since(start).Milliseconds())
 		}
 		if !reachedAt.IsZero() && time.Since(reachedAt) >= time.Duration(linger)*time.Millisecond {
-			report(true)
-			os.Exit(0)
+			// C13_WAIT_SWITCH_MS: keep watching that long for the pool routine's announcement (it
+			// asks itself once a second; a loaded machine may need a few seconds more)
+			waitMs, _ := strconv.Atoi(os.Getenv("C13_WAIT_SWITCH_MS"))
+			if switched() || time.Since(reachedAt) >= time.Duration(linger+waitMs)*time.Millisecond {
+				report(true)
+				os.Exit(0)
+			}
 		}
 		if time.Since(start) >= time.Duration(budget)*time.Millisecond {
 			report(!reachedAt.IsZero())
